@@ -285,7 +285,10 @@ class Runner:
         r, e = self._outcome(fn, op)
         if e is None and (asyncio.iscoroutine(r) or isinstance(r, asyncio.Future)):
             try:
-                r = await r
+                if op.get("timeout") is not None:
+                    r = await asyncio.wait_for(r, timeout=op["timeout"])
+                else:
+                    r = await r
             except (SimDeadlock, SimStepCap, HarnessError):
                 raise
             except Exception as ex:
